@@ -38,7 +38,7 @@ var (
 
 func poolURL(i int) string {
 	poolOnce.Do(func() {
-		l, err := net.Listen("tcp", "127.0.0.1:0")
+		l, err := listenLoopback()
 		if err != nil {
 			panic(err)
 		}
@@ -229,7 +229,9 @@ func runPool(raw json.RawMessage) (interface{}, error) {
 	}
 	// the asynchronous closer: every live connection the cleanup removed must end up closed
 	closed := map[int]bool{}
-	deadline := time.Now().Add(time.Second)
+	// generous: on a loaded machine the closer goroutine may be scheduled late; costs time only when a
+	// removed connection is never closed
+	deadline := time.Now().Add(15 * time.Second)
 	for _, cc := range await {
 		for cc.GetState() != connectivity.Shutdown && time.Now().Before(deadline) {
 			time.Sleep(200 * time.Microsecond)
